@@ -5,7 +5,6 @@ import numpy as np
 
 from common import R, Rmat, fl, flmat, max_rel_err
 
-from common import wiring_pre_build as pre_build  # noqa: E402,F401
 
 LEAN_MODULES = ["PyomaVerif.Props.C12", "PyomaVerif.Props.C12Dat", "PyomaVerif.Props.C12Build", "PyomaVerif.Props.WiringRun", "PyomaVerif.Props.WiringStore", "PyomaVerif.Props.WiringClass", "PyomaVerif.Props.WiringCalls"]
 THEOREMS = [
